@@ -776,11 +776,16 @@ class Process(StateMachine, persistence.Savable, metaclass=ProcessStateMachineMe
         """Entering the CREATED state."""
         self._creation_time = time.time()
 
-        def recursively_copy_dictionaries(value: Any) -> Any:
+        def recursively_copy_dictionaries(value: Any, port: Any = None) -> Any:
             """Recursively copy the mapping but only create copies of the dictionaries not the values."""
-            # (any mutable mapping, not only a ``dict``: ``pre_process`` would fill the defaults into the caller's object)
-            if isinstance(value, collections.abc.MutableMapping):
-                return {key: recursively_copy_dictionaries(subvalue) for key, subvalue in value.items()}
+            # (for a port namespace any mapping is copied, not only a ``dict``: ``pre_process`` fills the defaults in place, which
+            # must not happen to the caller's object, nor to the dictionaries inside a read-only mapping)
+            is_namespace = isinstance(port, ports.PortNamespace)
+            if isinstance(value, dict) or (is_namespace and isinstance(value, collections.abc.Mapping)):
+                return {
+                    key: recursively_copy_dictionaries(subvalue, port.get(key) if is_namespace else None)
+                    for key, subvalue in value.items()
+                }
             return value
 
         # This will parse the inputs with respect to the input portnamespace of the spec and validate them. The
@@ -788,7 +793,7 @@ class Process(StateMachine, persistence.Savable, metaclass=ProcessStateMachineMe
         # ``_raw_inputs`` should not be modified, we pass a clone of it. Note that we only need a clone of the nested
         # dictionaries, so we don't use ``copy.deepcopy`` (which might seem like the obvious choice) as that will also
         # create a clone of the values, which we don't want.
-        raw_inputs = recursively_copy_dictionaries(dict(self._raw_inputs)) if self._raw_inputs else {}
+        raw_inputs = recursively_copy_dictionaries(dict(self._raw_inputs), self.spec().inputs) if self._raw_inputs else {}
         self._parsed_inputs = self.spec().inputs.pre_process(raw_inputs)
         result = self.spec().inputs.validate(self._parsed_inputs)
 
